@@ -122,3 +122,70 @@ def lenient_body(cred):
         return base64.b64decode(body)
     except Exception:
         return None
+
+
+def primitive_failures(ctx, h, what):
+    """Every primitive call of a request fails in turn (toy build: `pfail=k` makes the k-th call of mac_* / cipher_* / the zlib and
+    bzlib entry points return an error): the error and clean-up paths of enc.c / dec.c that no input can reach.  Oracle: the reply is
+    the error-only form (nothing of the credential in it), nothing leaks, the descriptor is closed once, a decode that failed this way
+    has not consumed the credential, and the daemon goes on serving.  Implementation only (the Lean primitives are total)."""
+    r = ctx.rng
+    pre = ["cred conf mackey=%s dekkey=%s" % (MK.hex(), DK.hex()), "cred replay-reset"]
+    cases = [dict(cipher=c, mac=m, zip=z, ttl=300, auth_uid=cc.ANY, auth_gid=cc.ANY, data=d, realm=b"", uid=21, gid=22, now=1000000, rnd=bytes(range(24)))
+             for (c, m, z, d) in [(4, 5, 3, b"compressible " * 12), (2, 3, 2, b"b" * 90), (0, 2, 0, b"plain"), (5, 6, 0, b""), (3, 4, 3, b"x" * 200)]]
+    _, res = encode_all(h, cases, pre=pre)
+    creds = [rsp.data for e, rsp in res if rsp.ok and rsp.error_num == 0]
+    if len(creds) != len(cases):
+        ctx.obligation("setup", "primitive failures: seed credentials minted", False, "%d/%d" % (len(creds), len(cases)))
+        return
+    ops, meta = list(pre), [None, None]
+    for ci, (e, cred) in enumerate(zip(cases, creds)):
+        for k in range(1, 26):
+            ops.append(enc_op(e, " pfail=%d" % k)); meta.append(("enc", ci, k))
+            ops.append("cred replay-reset"); meta.append(None)
+            ops.append("cred req %s now=1000001 peer=1:1 mem=- pfail=%d" % (cc.hx(cc.dec_req(cred)), k)); meta.append(("dec", ci, k))
+            ops.append("cred req %s now=1000001 peer=1:1 mem=-" % cc.hx(cc.dec_req(cred))); meta.append(("again", ci, k))
+    rc, out, err = cbuild.run_lines([h], ops)
+    ctx.count(len(ops)); ctx.dist("primitive_failures", len([m for m in meta if m]))
+    for o in ops:
+        ctx.distinct(o)
+    bad, fired, prev = None, 0, None
+    for i, (m, l) in enumerate(zip(meta, out[:len(ops)])):
+        if not m:
+            continue
+        rsp, kv = cc.rsp_of(l)
+        hit = "pcalls" in kv and int(kv["pcalls"]) >= m[2] if m[0] != "again" else False
+        fired += 1 if hit else 0
+        why = None
+        if kv.get("leak") != "0" or "connection-descriptor-closed" in l:
+            why = "memory leaked / descriptor mishandled on the failure path"
+        elif not rsp.ok:
+            why = "no well-formed reply"
+        elif m[0] == "enc":
+            if hit and (rsp.error_num == 0 or rsp.data):
+                why = "an encode whose primitive call %d failed still returned %s" % (m[2], "success" if rsp.error_num == 0 else "credential bytes with the error")
+            if not hit and rsp.error_num != 0:
+                why = "encode failed although no primitive failed"
+        elif m[0] == "dec":
+            if hit and rsp.error_num in (0, 15, 16, 17):
+                why = "a decode whose primitive call %d failed was answered with code %d" % (m[2], rsp.error_num)
+            elif hit and not sanitized(rsp):
+                why = "the reply to a decode whose primitive call %d failed carries credential data" % m[2]
+            elif not hit and rsp.error_num != 0:
+                why = "decode failed although no primitive failed"
+            prev = (hit, rsp.error_num)
+        elif m[0] == "again":
+            want = 0 if (prev and prev[1] != 0) else 17
+            if rsp.error_num != want:
+                why = ("a decode that failed inside a primitive consumed the credential (next decode: %d)" % rsp.error_num) if want == 0 else \
+                      "second decode of a decoded credential returned %d" % rsp.error_num
+        if why and not bad:
+            bad = (i, why, l)
+    crashed = rc != 0 or len(out) != len(ops)
+    ctx.obligation("oracle", "primitive failures: %d requests, %d with a primitive call made to fail (every call position of 5 encode and 5 decode pipelines)" % (
+        len([m for m in meta if m]), fired), bad is None and not crashed and fired > 50, (bad[1] if bad else "") + (err[-1500:] if crashed else "") + ("" if fired > 50 else " only %d failures fired" % fired))
+    if bad or crashed:
+        i = bad[0] if bad else len(out)
+        ctx.violation("%s: %s" % (what, bad[1] if bad else "crash / sanitizer report on a primitive-failure path"),
+                      {"stream": "primitive-failures", "harness": "h_cred_toy", "ops": [ops[0], ops[1]] + ops[max(2, i - 2):i + 1] if i < len(ops) else [], "impl_output": bad[2][:600] if bad else err[-3000:]},
+                      found_input=True)
